@@ -121,6 +121,7 @@ class C02:
     def run(self, ctx):
         rng = ctx.rng
         objs = pyside.rand_objects(rng, ctx.scale(220, 5000))
+        objs += ["a" * 65537, b"b" * 70001, bytearray(b"c" * 65600), ["\u20ac" * 30000, b"d" * 66000, ("e" * 65536,)]]   # > 64 KiB payloads
         objs += [2 ** 1016, -2 ** 1016, 2 ** 2038, b"", bytearray(), [b"", bytearray(b"")], {(): 1}, {(1, (2, "a")): [1]},
                  "\ud800", ["a\udfffb"], {1: {2: {3: []}}}, [[]] * 2]
         x = [1, 2]
@@ -249,6 +250,9 @@ class C06:
     def run(self, ctx):
         rng = ctx.rng
         progs = own_corpus("C06") + sharing_programs() + short_programs(rng, ctx.scale(4, 5), sample=ctx.scale(0.25, 0.2))
+        nan = b"G\x7f\xf8\x00\x00\x00\x00\x00\x00"     # one NaN object used as a key twice (K6), and two NaN objects (no finding)
+        progs += [b"}" + nan + b"q\x00K\x01sh\x00K\x02s.", b"(" + nan + b"q\x00K\x01h\x00K\x02d.", b"}" + nan + b"2K\x01sK\x02s.",
+                  b"}" + nan + b"q\x00\x85K\x01sh\x00\x85K\x02s.", b"}" + nan + b"K\x01s" + nan + b"K\x02s."]
         for _ in range(ctx.scale(2500, 60000)):
             g = P.ProgGen(rng, wellformed=True, maxops=rng.choice([6, 12, 25, 50]), colliding=0.05, persid=0.04,
                           allow_unhashable_keys=0.0, special_calls=False)
@@ -305,8 +309,18 @@ class C06:
                     if equiv(want_t, gp) or (not su and equiv(V.parse(y_to_s(V.render(want_t))), gp)):
                         ctx.count("map-mode:go-key-identity")
                         continue
+                known = "K1" if k1 else None
+                if known is None and (b"nan" in p.lower() or b"\x7f\xf8" in p or b"\xff\xf8" in p or b"\x7f\xf0" in p):
+                    # K6: equal to what Python builds when dict keys are compared by == alone (a NaN object reused as a key)?
+                    o_n = C.run_py([f"{'loadrn' if su else 'loadr0n'} {hexs(p)}"])[0]
+                    if o_n.startswith("OK "):
+                        want_n = _to_py(V.parse(o_n[3:].rsplit(" ", 1)[0]))
+                        if not su:
+                            want_n = V.parse(y_to_s(V.render(want_n)))
+                        if equiv(want_n, got_t):
+                            known = "K6"
                 ctx.violate("Decode result does not denote the value CPython's unpickler builds", line[:3000], V.render(want_t)[:1200],
-                            V.render(got_t)[:1200], known="K1" if k1 else None)
+                            V.render(got_t)[:1200], known=known)
         for i in range(0, len(lines), max(1, len(lines) // 8)):
             ctx.sample(lines[i][:200] + " -> " + go[i][:200])
 
@@ -368,6 +382,14 @@ class C09:
                     b"".join(k + v + b"s" for k, v in zip(ks[h:], vals[h:])) + b"h\x00\x86."
             out.append(p)
         out += [p for p in sharing_programs() if p[:1] in (b"}", b"(") and b"d" in p[:3] or p[:1] == b"}"]
+        # one NaN float OBJECT used as a key more than once (through the memo / DUP; bare, in one shared tuple, in two
+        # tuples): CPython compares "identical or equal", so these collapse there — known finding K6
+        nan = b"G\x7f\xf8\x00\x00\x00\x00\x00\x00"
+        for nk in (nan, b"FNaN\n", b"G\x7f\xf8\x00\x00\x00\x00\x00\x01"):
+            out += [b"}" + nk + b"q\x00K\x01sh\x00K\x02s.", b"(" + nk + b"q\x00K\x01h\x00K\x02d.",
+                    b"}(" + nk + b"K\x01tq\x00K\x01sh\x00K\x02s.", b"}" + nk + b"q\x00\x85K\x01sh\x00\x85K\x02s.",
+                    b"}" + nk + b"2K\x01sK\x02s.", b"}(" + nk + b"q\x00K\x01h\x00K\x02K\x05K\x03u.",
+                    b"}" + nk + b"K\x01s" + nk + b"K\x02s."]       # last: two distinct NaN objects - two entries everywhere
         for _ in range(ctx.scale(500, 10000)):
             out.append(P.ProgGen(rng, wellformed=True, colliding=0.7, maxops=rng.choice([10, 25, 40]), allow_unhashable_keys=0.02,
                                  special_calls=False).gen())
@@ -413,8 +435,17 @@ class C09:
             if not su:
                 want_t = V.parse(y_to_s(V.render(want_t)))
             if not equiv(want_t, got_t, ORACLE.py2eq if su else ORACLE.py3eq):
+                # K6: does the result equal what Python builds when keys are compared by == alone (no "is" shortcut)?
+                o_n = C.run_py([f"{'loadrn' if su else 'loadr0n'} {hexs(p)}"])[0]
+                known = None
+                if o_n.startswith("OK "):
+                    want_n = _to_py(V.parse(o_n[3:].rsplit(" ", 1)[0]))
+                    if not su:
+                        want_n = V.parse(y_to_s(V.render(want_n)))
+                    if equiv(want_n, got_t, ORACLE.py2eq if su else ORACLE.py3eq):
+                        known = "K6"
                 ctx.violate("PyDict mode built a dict that differs (entry count / key classes / final values) from Python's", line[:3000],
-                            V.render(want_t)[:1000], V.render(got_t)[:1000])
+                            V.render(want_t)[:1000], V.render(got_t)[:1000], known=known)
         for i in range(0, len(lines), max(1, len(lines) // 8)):
             ctx.sample(lines[i][:200] + " -> " + go[i][:200])
 
@@ -509,6 +540,7 @@ class C01:
         out += [("S", c) for c in V.ADV_CHUNKS] + [("Y", c) for c in V.ADV_CHUNKS] + [("B", c) for c in V.ADV_CHUNKS]
         out += [("D", b) for b in V.SPECIAL_FLOATS] + [("I", i) for i in V.INT_LATTICE if -2 ** 63 <= i < 2 ** 63][::7]
         out += [("U", 2 ** 63), ("U", 2 ** 64 - 1), ("L", 2 ** 70), ("L", -2 ** 70 - 1), ("X", 3), ("R", ("S", b"oid")), ("R", ("t", [("I", 1)]))]
+        out += [v for v in V.edge_string_values() if v[0] != "R"]
         for _ in range(n):
             g = V.ValueGen(rng, pydict=True, su=True, canonical=False, maxdepth=rng.choice([1, 2, 3, 4]), allow_user=True)
             v = g.value()
@@ -581,5 +613,32 @@ class C01:
             if got != want:
                 ctx.violate("the Python object loaded from the encoder's output is not the documented value", line[:3000], want[:1200], got[:1200],
                             known="K3" if k3_applies(v, p, bool(su)) else None)
+        self.reflect_tie(ctx)
         for i in range(0, len(lines), max(1, len(lines) // 8)):
             ctx.sample(lines[i][:300] + " -> " + go[i][:200])
+
+    def reflect_tie(self, ctx):
+        """Structs, typed slices / arrays / maps and pointers (values no GoVal token describes): many different Go types
+        encoded one after another by each harness process; the bytes must be the model's for the described value
+        (what they mean to Python then follows from the model's agreement with CPython on the GoVal domain)."""
+        rng = ctx.rng
+        n = ctx.scale(2500, 40000)
+        base = ctx.seed * 9000011
+        lines = [f"encr {base + i} {rng.randint(0, 5)} {rng.randint(0, 1)}" for i in range(n)]
+        go = C.run_sharded(C.run_go, lines)
+        mlines = []
+        for line, g in zip(lines, go):
+            f = line.split(" ")
+            mlines.append(f"encr {f[2]} {f[3]} {g.split(' => ')[0] if ' => ' in g else 'inv'}")
+        lean = C.run_sharded(C.run_lean, mlines)
+        for line, ml, g, l in zip(lines, mlines, go, lean):
+            ctx.evaluations += 1
+            if " => " not in g:
+                ctx.count("reflect:generator-failed")
+                continue
+            desc, res = g.split(" => ", 1)
+            multi = "rmap(" in desc or "=" in desc
+            gi = res + " x" if res.startswith("ERR ") else res
+            ctx.count("reflect:" + ("tagged-struct" if "=" in desc else "struct" if "st(" in desc else "other"))
+            norm = lambda a: " ".join(a.split(" ")[:2]) if a.startswith("ERR") else a     # noqa: E731
+            ctx.tie(ml[:3000], norm(gi), norm(l), project=enc_project if multi else None)
